@@ -20,30 +20,31 @@
      sumN                the true (unbounded) sum of amounts
      ids r               the output ids held by reservation r.
 
-   Side condition [fits] / [run_fits] (C26/Inv.v), the only hypothesis: uint64
-   arithmetic does not wrap — at a Reserve the funds of the request sum to less
-   than 2^64, and fewer than 2^64 - 1 reservations were made before. *)
+   Side conditions, the only hypotheses: uint64 arithmetic does not wrap.  For the
+   bookkeeping (1.) the reservation counter must not wrap ([fits_id], C26/Struct.v:
+   nextIndex + 1 < 2^64 at a reservation; implied by "fewer than 2^64 operations");
+   for the amounts (2., 3.) the funds of the request sum to less than 2^64. *)
 From Coq Require Import List ZArith NArith Bool.
 From Verif Require Import Outcome.
-From C26 Require Import Model Proofs Select Reserve Inv Main History.
+From C26 Require Import Model Proofs Select Reserve Inv Struct Main History.
 Import ListNotations.
 Open Scope N_scope.
 
-(* 1. NO OVERLAP.  After ANY sequence of operations (any length, any arguments, any
-   interleaving of reservations, particular reservations, cancellations, expiries
-   and wallet/chain events), from a keeper over any wallet DB: every live
-   reservation holds pairwise distinct outputs, two different live reservations
-   share no output, and the keys of the reserved map are exactly the outputs held
-   by live reservations. *)
+(* 1. NO OVERLAP.  After ANY sequence of fewer than 2^64 operations (any arguments, any
+   amounts - also when uint64 sums wrap -, any interleaving of reservations,
+   particular reservations, cancellations, expiries and wallet/chain events), from a
+   keeper over any wallet DB: every live reservation holds pairwise distinct outputs,
+   two different live reservations share no output, and the keys of the reserved map
+   are exactly the outputs held by live reservations. *)
 Theorem c26_no_overlap :
   forall (conf contr unc : list utxo) (h : N) (ops : list op) (st : state) (rs : list result),
-    run_fits (init_state conf contr unc h) ops ->
+    N.of_nat (length ops) < two64 ->
     run (init_state conf contr unc h) ops = (st, rs) ->
     (forall r, In r (resvs st) -> NoDup (ids r)) /\
     (forall i j r1 r2, nth_error (resvs st) i = Some r1 -> nth_error (resvs st) j = Some r2 -> i <> j ->
                        forall o, In o (ids r1) -> ~ In o (ids r2)) /\
     (forall o, rmem o (reserved st) = true <-> exists r, In r (resvs st) /\ In o (ids r)).
-Proof. exact reachable_no_overlap_init. Qed.
+Proof. exact reachable_no_overlap_length. Qed.
 Print Assumptions c26_no_overlap.
 
 (* The inductive invariant behind it: it holds for the empty keeper, every single
@@ -52,8 +53,8 @@ Theorem c26_inv_init : forall conf contr unc h, inv (init_state conf contr unc h
 Proof. exact inv_init. Qed.
 Print Assumptions c26_inv_init.
 
-Theorem c26_inv_step : forall st o, inv st -> fits st o -> inv (fst (step st o)).
-Proof. exact step_inv. Qed.
+Theorem c26_inv_step : forall st o, inv st -> fits_id st o -> inv (fst (step st o)).
+Proof. exact step_inv_id. Qed.
 Print Assumptions c26_inv_step.
 
 Theorem c26_inv_implies_no_overlap : forall st, inv st -> no_overlap st.
@@ -125,10 +126,9 @@ Theorem c26_error_classes_particular :
 Proof. exact reserve_particular_classes. Qed.
 Print Assumptions c26_error_classes_particular.
 
-(* a failed Reserve changes nothing *)
+(* a failed Reserve changes nothing (whatever the amounts) *)
 Theorem c26_failure_no_effect :
   forall st acct asset amount uu vote exp ord st' e,
-    sumN (funds st acct asset uu vote) < two64 ->
     reserve true st acct asset amount uu vote exp ord = (st', RErr e) -> st' = st.
 Proof. exact reserve_failure_no_effect. Qed.
 Print Assumptions c26_failure_no_effect.
